@@ -85,7 +85,7 @@ func (f FileSpec) descriptor(idx int) *descriptorpb.FileDescriptorProto {
 	fd := &descriptorpb.FileDescriptorProto{
 		Name:    sp(fmt.Sprintf("f%d.proto", idx)),
 		Syntax:  sp("proto3"),
-		Options: &descriptorpb.FileOptions{GoPackage: sp(fmt.Sprintf("genmod/p%d;p%d", idx, idx))},
+		Options: &descriptorpb.FileOptions{GoPackage: sp(fmt.Sprintf("genmod/p%d/pb;pb", idx)) /* every generated package is a "package pb" at its own import path, as in real repositories */},
 	}
 	if f.Pkg != "" {
 		fd.Package = sp(f.Pkg)
@@ -204,7 +204,7 @@ func isSel(e ast.Expr, pkgPath, name string, imports map[string]string) bool {
 
 // implFor writes zz_impl.go for a generated drpc file: an echo implementation of every server
 // interface (shapes read off the generated interfaces) plus the registration with c17rt.
-func implFor(pkgName, genPath string, expected []string) (string, error) {
+func implFor(pkgName, regName, genPath string, expected []string) (string, error) {
 	fset := token.NewFileSet()
 	file, err := parser.ParseFile(fset, genPath, nil, 0)
 	if err != nil {
@@ -354,7 +354,7 @@ func implFor(pkgName, genPath string, expected []string) (string, error) {
 		fmt.Fprintf(&out, "\t%s %q\n", n, imports[n])
 	}
 	fmt.Fprintf(&out, ")\n\n%s", body.String())
-	fmt.Fprintf(&out, "func init() {\n\tzzrt.Register(zzrt.Package{\n\t\tName: %q,\n\t\tExpected: %#v,\n", pkgName, expected)
+	fmt.Fprintf(&out, "func init() {\n\tzzrt.Register(zzrt.Package{\n\t\tName: %q,\n\t\tExpected: %#v,\n", regName, expected)
 	fmt.Fprintf(&out, "\t\tConstructors: []any{%s},\n", strings.Join(ctorNames, ", "))
 	fmt.Fprintf(&out, "\t\tRegistrars: []func(zzdrpc.Mux) error{%s},\n", strings.Join(regCalls, ", "))
 	fmt.Fprintf(&out, "\t\tDescriptions: []zzdrpc.Description{%s},\n\t})\n}\n", strings.Join(descNames, ", "))
@@ -517,7 +517,7 @@ func RunSpecs(all []FileSpec) ([]outcome, error) {
 			o.cls = "rejected" // the property speaks about definitions the generator accepts
 			return
 		}
-		dir := filepath.Join(gen, fmt.Sprintf("p%d", i))
+		dir := filepath.Join(gen, fmt.Sprintf("p%d", i), "pb")
 		_ = os.MkdirAll(dir, 0o755)
 		var drpcFile string
 		for _, f := range resp.File {
@@ -536,9 +536,9 @@ func RunSpecs(all []FileSpec) ([]outcome, error) {
 				o.msg, o.cls = fmt.Sprintf("HARNESS protoc-gen-go failed: %v %v", err, r2.GetError()), "harness"
 				return
 			}
-			_ = os.MkdirAll(filepath.Join(dir, "msgs"), 0o755)
+			_ = os.MkdirAll(filepath.Join(gen, fmt.Sprintf("p%d", i), "msgs"), 0o755)
 			for _, f := range r2.File {
-				_ = os.WriteFile(filepath.Join(dir, "msgs", filepath.Base(f.GetName())), []byte(f.GetContent()), 0o644)
+				_ = os.WriteFile(filepath.Join(gen, fmt.Sprintf("p%d", i), "msgs", filepath.Base(f.GetName())), []byte(f.GetContent()), 0o644)
 			}
 			o.cls = "generated" // compiled only (see below)
 			return
@@ -553,7 +553,7 @@ func RunSpecs(all []FileSpec) ([]outcome, error) {
 				_ = os.WriteFile(filepath.Join(dir, filepath.Base(f.GetName())), []byte(f.GetContent()), 0o644)
 			}
 		}
-		impl, err := implFor(fmt.Sprintf("p%d", i), drpcFile, spec.expected())
+		impl, err := implFor("pb", fmt.Sprintf("p%d", i), drpcFile, spec.expected())
 		if err != nil {
 			o.msg, o.cls = "generated code does not have the documented structure: "+err.Error(), "structure"
 			return
@@ -603,7 +603,7 @@ func RunSpecs(all []FileSpec) ([]outcome, error) {
 	var drv bytes.Buffer
 	drv.WriteString("package main\n\nimport (\n\t\"verif/c17rt\"\n")
 	for _, i := range run {
-		fmt.Fprintf(&drv, "\t_ \"genmod/p%d\"\n", i)
+		fmt.Fprintf(&drv, "\t_ \"genmod/p%d/pb\"\n", i)
 	}
 	drv.WriteString(")\n\nfunc main() { c17rt.RunAll() }\n")
 	_ = os.MkdirAll(filepath.Join(gen, "cmd", "driver"), 0o755)
@@ -620,6 +620,9 @@ func RunSpecs(all []FileSpec) ([]outcome, error) {
 		tail := derr.String()
 		if len(tail) > 1500 {
 			tail = tail[:1500]
+		}
+		if strings.Contains(tail, "panic:") {
+			return nil, fmt.Errorf("the process serving and calling the generated services panicked while round-tripping: %s", tail)
 		}
 		return nil, fmt.Errorf("HARNESS driver run: %v: %s", err, tail)
 	}
